@@ -37,7 +37,7 @@ EXPECTED_PROBES = ["alloc_between_hashes", "cross_class_eq", "cross_class_order"
 def plan(tier):
     if tier == "quick":
         return {"runs": 40000, "chunk": 250, "wall_cap": 150, "extra_hashseeds": ["1", "4242"], "extra_runs": 3000}
-    return {"runs": 1500000, "chunk": 1000, "wall_cap": 3000, "extra_hashseeds": ["1", "4242"], "extra_runs": 100000}
+    return {"runs": 1500000, "chunk": 1000, "wall_cap": 900, "extra_hashseeds": ["1", "4242"], "extra_runs": 100000}
 
 
 def prepare(tier):  # pylint: disable=unused-argument
